@@ -1003,3 +1003,58 @@ Proof.
 Qed.
 
 End LinearAgrees.
+
+(* ------------------------------------------------------------------ non-vacuity *)
+
+(* x_t = (1/4) x_{t+1} + e_t on one simulated column (column 1), first-order terminal x_{T+1} = 0 * x_T:
+   the hypotheses of [linear_agrees] are met *)
+Definition ex_aeqs : list affine_equation :=
+  [([((0, 0)%Z, -1); ((0, 1)%Z, 1 / 4); ((1, 0)%Z, 1)], 0)].
+Definition ex_T : affine_terminal :=
+  mkAffTerm (fun q c => (q =? 0)%Z && (c =? 2)%Z) (fun _ _ => [((0, 1)%Z, 0)]) (fun _ _ => 0).
+Definition ex_P : darr := fun q c => if ((q =? 0) && (c =? 1))%Z then 3 else if ((q =? 1) && (c =? 1))%Z then 3 else 0.
+Definition ex_D : darr := fun q c => if ((q =? 1) && (c =? 1))%Z then 3 else 0.
+
+Lemma linear_agrees_hypotheses_satisfiable :
+  (forall e j, (e < length ex_aeqs)%nat -> (j < length [1%Z])%nat ->
+     eval_affine (nth e ex_aeqs ([], 0)) (term_affine ex_T ex_P) (nth j [1%Z] 0%Z) = 0)
+  /\ (forall q c, ~ In (q, c) [(0, 1)%Z] -> ex_P q c = ex_D q c)
+  /\ (forall dx : nat -> R,
+        (forall e j, (e < length ex_aeqs)%nat -> (j < length [1%Z])%nat ->
+           stacked_linear ex_aeqs ex_T [1%Z] [(0, 1)%Z] dx e j = 0) ->
+        forall k, (k < length [(0, 1)%Z])%nat -> dx k = 0).
+Proof.
+  repeat split.
+  - intros e j He Hj. simpl in He, Hj.
+    assert (e = 0%nat) by lia. assert (j = 0%nat) by lia. subst.
+    unfold eval_affine, term_affine, ex_T, ex_P, ex_aeqs, lin_comb, abs_comb. simpl. lra.
+  - intros q c Hn. unfold ex_P, ex_D.
+    destruct ((q =? 0)%Z && (c =? 1)%Z) eqn:E; auto.
+    apply andb_true_iff in E. destruct E as [E1 E2]. apply Z.eqb_eq in E1, E2. subst.
+    exfalso. apply Hn. left. reflexivity.
+  - intros dx H k Hk. simpl in Hk. assert (k = 0%nat) by lia. subst.
+    specialize (H 0%nat 0%nat ltac:(simpl; lia) ltac:(simpl; lia)).
+    unfold stacked_linear, term_linear, ex_T, ex_aeqs, lin_comb, abs_comb, upd, zero_arr in H. simpl in H. lra.
+Qed.
+
+Open Scope Z_scope.
+
+(* frames: a span of five periods with break points at the first and the fourth period *)
+Lemma frames_example :
+  stacked_frames [true; false; false; true; false] (zrange_from 100 5)
+  = [mkFrame 100 102 104; mkFrame 103 104 104]
+  /\ pbp_frames (zrange_from 100 3) = [mkFrame 100 100 100; mkFrame 101 101 101; mkFrame 102 102 102].
+Proof. split; reflexivity. Qed.
+
+(* unknown cells: x (row 0) exogenized at column 3, shock (row 5) endogenized at column 2 *)
+Lemma wrt_spots_example :
+  let p := mkPlan [(0, [false; true; false])] [(5, [true; false; false])] [] [] in
+  wrt_spots (Some p) [2; 3; 4] [0; 1]
+  = [(0, 2); (0, 4); (1, 2); (1, 3); (1, 4); (5, 2)]
+  /\ incl (exogenized_spots p [2; 3; 4]) (base_spots [2; 3; 4] [0; 1])
+  /\ (forall s, In s (endogenized_spots p [2; 3; 4]) -> ~ In s (base_spots [2; 3; 4] [0; 1])).
+Proof.
+  cbv zeta. split; [reflexivity |]. split.
+  - intros s H. simpl in H. destruct H as [<- | []]. simpl. tauto.
+  - intros s H. simpl in H. destruct H as [<- | []]. simpl. intuition congruence.
+Qed.
